@@ -102,6 +102,8 @@ def commonBlockdim (blockdims : List (List Nat)) : Option (List Nat) :=
     | [] => some (maxByFirst blockdims)
     | d :: _ =>
       if nt.any (fun e => e.sum != d.sum) then none
+      -- since a3ff003: several chunkings of a zero-length dimension have the single empty chunk in common
+      else if d.sum = 0 then some [0]
       else walk d.sum (walkFuel nt) 0 nt
 
 /-! ### unify_chunks (chunk sizes known) -/
@@ -149,8 +151,8 @@ def unifySyms (args : List UArg) : Option (List (Sym × List Nat)) :=
 /-- the chunks every argument is rechunked to: `chunkss[j] if a.shape[n] > 1 else a.shape[n]` -/
 def newChunks (chunkss : List (Sym × List Nat)) (a : UArg) : Option (List (List Nat)) :=
   if a.chunks.any List.isEmpty then some a.chunks
-  -- `Array.rechunk`: "don't rechunk if array is empty" (`x.ndim > 0 and all(s == 0 for s in x.shape)`)
-  else if !a.chunks.isEmpty && a.chunks.all (fun c => c.sum == 0) then some a.chunks
+  -- (`Array.rechunk` used to return an all-empty array unchanged; since d1cec06 it honours the explicit all-zero chunk
+  --  tuples that unify_chunks requests, so empty arrays follow the general rule)
   else optAll ((a.ind.zip a.chunks).map fun p =>
     -- `chunkss[j] if a.shape[n] > 1 or sum(chunkss[j]) == a.shape[n] else a.shape[n]`: a length-one dimension stays a
     -- single chunk only when it really is broadcast (the unified dimension is longer)
